@@ -353,19 +353,21 @@ func (r *Reader) read(iop *IOPlan) ([]byte, error) {
 				readBuffer,
 				r.fileBuffer)
 
+			prevBytesLeftToFill := bytesLeftToFill
 			bytesLeftToFill -= bytesRead
 			if iop.RecordType == utilsio.VARIABLE {
 				// If we've added data to the buffer from this file, record it for possible later use
 				if bytesRead > 0 {
-					bufMetaLen := bytesRead
 					// read enough amount of records
 					if bytesLeftToFill < 0 {
 						bytesLeftToFill = 0
-						bufMetaLen = int32(len(resultBuffer))
 					}
+					// this file's index records are the ones it just put in front of those of the newer
+					// files: [bytesLeftToFill, prevBytesLeftToFill). Taking the whole buffer handed the
+					// newer files' index records to this (older) file as well.
 					bufMeta = append(bufMeta, bufferMeta{
 						FullPath:  fp[i].FullPath,
-						Data:      resultBuffer[bytesLeftToFill : bytesLeftToFill+bufMetaLen],
+						Data:      resultBuffer[bytesLeftToFill:prevBytesLeftToFill],
 						VarRecLen: iop.VariableRecordLen,
 						Intervals: fp[i].tbi.GetIntervals(),
 					})
